@@ -219,7 +219,7 @@ func c20PartModel(lookup bool) *mc.Model {
 
 func c20LimHooks() limHooks {
 	return limHooks{
-		name: "C20/limit", level: 0, withZero: false, withHuge: false, reg: true,
+		name: "C20/limit", level: 0, withZero: true, withHuge: false, reg: true, // incl. samples with RTT 0 (a drop-only window behind a wrapper)
 		step: func(li *limInst, s sample, before, after int, pm string, t *mc.Tr) {
 			if pm != "" {
 				t.Note("panic (reported by C04 only): " + fmt.Sprintf("OnSample(%s) panicked: %s", s, pm))
